@@ -3,8 +3,8 @@
    the dialect semantics of Model/C01Sql.v (only SQLite executes in this sandbox; PostgreSQL and MySQL are documentation
    models).  [safe d] is the complement of the recorded per-dialect defects (Findings/C01.v, Findings/C02.v). *)
 Require Import PonyV.Base.PyBase PonyV.Model.C01Expr PonyV.Model.C01Sql PonyV.Model.C01Translate PonyV.Model.C01Safe
-               PonyV.Model.C01Eqb PonyV.Model.C01Query PonyV.Model.C01Join
-               PonyV.Proofs.C01Rows PonyV.Proofs.C01Join PonyV.Proofs.C02Agree PonyV.Proofs.C02Join.
+               PonyV.Model.C01Eqb PonyV.Model.C01Query PonyV.Model.C01Join PonyV.Model.C01Coll
+               PonyV.Proofs.C01Rows PonyV.Proofs.C01Join PonyV.Proofs.C02Agree PonyV.Proofs.C02Join PonyV.Proofs.C01Coll PonyV.Proofs.C02Coll.
 
 (* a selected expression decodes to the same Python value on any two dialects *)
 Theorem C02_agree_project_except_known : forall d1 d2, modelled d1 = true -> modelled d2 = true ->
@@ -46,6 +46,19 @@ Theorem C02_agree_join_rows_except_known : forall d1 d2, modelled d1 = true -> m
   map (dec (TV vt)) (sql_join_rows d1 k depth false c1 q1 params db) = map (dec (TV vt)) (sql_join_rows d2 k depth false c2 q2 params db).
 Proof. exact agree_join_rows. Qed.
 Print Assumptions C02_agree_join_rows_except_known.
+
+(* queries with conditions over a to-many collection (Model/C01Coll.v: EXISTS / IN / NOT IN / COUNT subqueries): the same
+   list on any two dialects, every group in the domain of both *)
+Theorem C02_agree_collection_rows_except_known : forall d1 d2, modelled d1 = true -> modelled d2 = true ->
+  forall params db distinct atoms proj vt xs1 q1 xs2 q2,
+  pk_ok (tP db) = true ->
+  forallb atom_typed atoms = true -> ty_of proj = Some (TV vt) ->
+  tr_atoms d1 atoms = Some xs1 -> tr_project d1 proj = Some q1 ->
+  tr_atoms d2 atoms = Some xs2 -> tr_project d2 proj = Some q2 ->
+  Forall (fun g => group_ok d1 params db atoms proj g /\ group_ok d2 params db atoms proj g) (tG db) ->
+  map (dec (TV vt)) (sql_coll_rows d1 params db distinct xs1 q1) = map (dec (TV vt)) (sql_coll_rows d2 params db distinct xs2 q2).
+Proof. exact agree_coll_rows. Qed.
+Print Assumptions C02_agree_collection_rows_except_known.
 
 (* query[offset:] : each dialect's way of writing "no limit" (SQLite LIMIT -1, MySQL LIMIT 18446744073709551615,
    PostgreSQL LIMIT null) returns exactly the rows after the offset (tables of at most 2^64 - 1 rows) *)
